@@ -48,7 +48,7 @@ ITER_POOL = ["i", "j", "k", "i", "j", "ii"]
 BUF_POOL = ["a", "b", "t", "a_1", "tmp", "a", "t"]
 ARG_POOL = ["x", "y", "z", "w", "out"]
 PRECS = ["f32", "f64", "i8", "i32", "f32", "f32", "R", "ui8", "ui16", "f16"]
-MEMS = ["DRAM", "DRAM", "DRAM", "DRAM_STACK", "DRAM_STATIC"]
+MEMS = ["DRAM", "DRAM", "DRAM", "DRAM_STACK", "DRAM_STATIC", "MDRAM"]
 
 # --------------------------------------------------------------------------- #
 # tiny expression trees for index expressions (so ranges can be brute-forced)
